@@ -231,6 +231,68 @@ MANIFEST_TEXT_EXTRA['C11'] = {'design_ref': 'DESIGN.md 4 C11',
          '0..4096 with the first offending unit at every position mod 64; the same inputs (4.9*10^5 oracle evaluations incl. encode) are compared with the '
          'streaming API in one call and in 7-byte chunks, with Cow variant and pointer identity.'}
 
+# --- C11, second round (agent-c11b): capacity arithmetic in the model, oneshot_no_unreachable, termination for every
+# admissible policy, Encoding::encode modelled and proved.  Overrides of the entry above.
+PROPS_EXTRA['C11']['thm_modules'] = ['EncodingRs.Thm.C11', 'EncodingRs.Lemmas.OneShotCap', 'EncodingRs.Lemmas.OneShotEnc']
+PROPS_EXTRA['C11']['trivial_re'] = '^oneshot \\S+ \\S+ \\. => |^oneshotenc \\S+ \\. => '
+PROPS_EXTRA['C11']['assumptions'] = [
+    'bytes and scalar values are Nat; a `&str` / `String` is the list of its scalar values (`strScalars` of its bytes; for encode: the characters `Model.items8` reads from its UTF-8 bytes, = the text by C03 utf8_source_reads); `Cow::Borrowed` is a flag - pointer identity of a borrow is observed by the harness only (ptr/len equal to the argument slice after the BOM)',
+    'the validators are the simple recursive definitions Model.asciiValidUpTo / Model.iso2022JpAsciiValidUpTo / Spec.validUpTo; that the real validators compute exactly these is property C14',
+    'capacity arithmetic: the `...Cap` functions and `encode` execute it as written (checked_add, checked_next_power_of_two, checked_min / next_power_of_two over the max_* formulas of Gen.MaxLen, which are re-translated from the Rust on every run; `.unwrap()` = outcome `panic`); usize = 64 bit; usize::next_power_of_two is modelled as a release build computes it (0 on overflow; a debug build panics); String::with_capacity / reserve / Vec::with_capacity / reserve_exact are modelled by their documented contract "at least" - the excess the allocator grants is the free parameter `slack` and every theorem is quantified over it; their own panics (capacity above isize::MAX, allocation failure) are outside the model',
+    'a stop policy is constrained by admissibility for the capacities the code computes (DecodeAdmissible / GrowAdmissible / NoReplAdmissible: every inner raw call is Model.Admissible for what is left of the spare capacity, as the dec correspondence run checks of every real call); the budget-parametrised functions of the first round (decodeWithoutBomHandling, ...) remain, their equality theorems hold for every policy, and the `...Cap` functions refine them (decodeWithoutBomHandlingCap_ok, noReplCap_ok)',
+    'the loops are modelled with fuel; for the decode functions the fuel 10*len+10 is proved sufficient for every admissible policy (decode_without_bom_handling_cap_returns); for encode the fuel is NOT proved sufficient (see partial) - the equality theorems of encode are statements about every run of the model that returns',
+    '`self == UTF_8` etc. (address comparison of &\'static Encoding) is modelled as a test on the variant; variant_identifies re-checks on the regenerated Gen.encodings that each such variant belongs to exactly the encoding of that name and that is_potentially_borrowable agrees with the index list extracted from lib.rs; outputEncoding_utf8_iff does the same for the `output_encoding == UTF_8` test of encode']
+PROPS_EXTRA['C11']['correspondences'] = [
+    'oneshot: Encoding::decode / decode_with_bom_removal / decode_without_bom_handling / decode_without_bom_handling_and_without_replacement impl (UTF-8 bytes of the result | None, encoding used, had_errors, Cow::Borrowed?) = Model.OneShot.decode / decodeWithBomRemoval / decodeWithoutBomHandling / decodeWithoutBomHandlingAndWithoutReplacement on every generated (encoding, input)',
+    'oneshotenc: Encoding::encode impl (bytes, encoding used, had_unmappables, Cow::Borrowed?) = Model.OneShot.encode (capacity arithmetic executed, exact allocator, inner calls never stopped early) on every generated (encoding, text) up to 130 bytes and every 8th (thorough: 24th) longer one']
+PROPS_EXTRA['C11']['partial'] = [
+    'encode_terminates_partial (NOT a theorem): that the loop of Encoding::encode returns is not proved for any policy; encodeV_eq_stream / encodeV_borrow_iff / encodeV_conforms / encodeV_eq_any_history are statements about every run of the model that returns (any stop policy, slack, number of reserve rounds). The driver runs the model with fuel 10*len+16 on every oneshotenc line and would print `diverges` (a model disagreement); the oracle compares the real function with the streaming Encoder on every generated text',
+    'the `.unwrap()` / next_power_of_two overflow of encode is modelled (outcome `panic`) but no length precondition that excludes it is proved (for the decode functions: 3*len+13 <= usize::MAX, without_replacement_panic_length / decode_without_bom_handling_panic_length)',
+    'equality with the *sniffing / BOM-removing streaming Decoder* (life cycle of C10): decode_eq_sniff / decode_with_bom_removal_eq reduce the one-shot BOM handling to the streaming decoder WITHOUT BOM handling of the encoding used on the input after the BOM; sniff_single_call / remove_*_single_call prove that the life-cycle model Decoder.rawCall fed the whole input in ONE last call hands exactly that decoder and that slice on; other chunkings of the sniffing decoder are C10 and are compared by the harness oracle (one call and 7-byte chunks) on every generated input',
+    'the capacity-aware decode functions are not run by the driver (it runs the budget-parametrised ones under the never-stop policy, which the `...Cap` functions refine): the capacities themselves are tied to the code through the C07 correspondence (max_* answers in every reached state), not through a C11 operation line',
+    'pointer aliasing of a borrow is observed (harness), not proved']
+PROPS_EXTRA['C11']['rule'] = PROPS_EXTRA['C11']['rule'].replace(
+    'over all 40 encodings, oracle only.',
+    'over all 40 encodings plus 150 (thorough 1500) random texts per encoding; oracles (bytes / had_unmappables / encoding used = streaming Encoder in one call and 7-byte chunks, Borrowed iff documented + aliasing, no panic) on every text, operation line `oneshotenc` for the model for every text up to 130 bytes and every 8th (thorough: 24th) longer one.')
+PROPS_EXTRA['C11']['trusted'] = PROPS_EXTRA['C11']['trusted'] + [
+    'encoder side: relational call model Model.ecall / Model.encRepl and the per-character step functions of Model/EncFam.lean (tied by the enc correspondence of C03/C04/C12), Spec/Encode.lean (the Standard\'s encoders) for encodeV_conforms',
+    'Vec::with_capacity / reserve_exact / next_power_of_two of alloc/core behave as documented']
+MANIFEST_TEXT_EXTRA['C11']['note'] = (
+    'Trusted: Lean kernel (+ the native_decide table evaluations inherited from C07 / C03, listed in the evidence); translator (Encoding initialisers, tables, max_* formulas); '
+    'hand models of the variant decoders / encoders + relational call models (correspondence runs); Spec/Utf8.lean, Spec/Encode.lean; validators assumed exact (C14); '
+    'alloc behaves as documented. Not proved: termination of the encode loop (fuel; driver-checked), overflow precondition of encode, pointer aliasing (observed), '
+    'the tie to the BOM-sniffing streaming life cycle beyond a single call (C10; oracle).')
+MANIFEST_TEXT_EXTRA['C11']['text'] = MANIFEST_TEXT_EXTRA['C11']['text'].replace(
+    'no_unreachable_partial; variant_identifies',
+    'no_unreachable_partial. SECOND ROUND - the capacity arithmetic is executed by the model as written (Model.OneShot decodeWithoutBomHandlingCap / growLoopCap / '
+    'decodeWithoutBomHandlingAndWithoutReplacementCap over the re-translated max_* formulas, `slack` = what the allocator grants beyond the request): '
+    'oneshot_no_unreachable (full strength: for every encoding, input, slack and EVERY stop policy admissible for the computed capacity valid_up_to + '
+    'max_utf8_buffer_length_without_replacement(rest), the unreachable!() arm is not taken - C07 variant_raw_sufficient at Reach.init), without_replacement_total '
+    '(returns None/Some, None iff malformed), without_replacement_panic_length / decode_without_bom_handling_panic_length (the .unwrap()s panic only if '
+    '3*len+13 > usize::MAX); decode_without_bom_handling_cap_returns (termination for EVERY admissible policy with the fuel bound 10*len+10: '
+    'growLoopCap_returns - at most two rounds of the grow loop, since after reserve(max_utf8_buffer_length(rest)) in the decoder\'s current state C07 '
+    'variant_repl_sufficient excludes a second OutputFull, the state being reachable by replLoop_reach; replLoop_terminates_any - the replacement loop ends '
+    'within 10*rest+10 inner calls for ANY stop policy by C08 malformed_progress and rank <= 9), decode_without_bom_handling_cap_total / decode_cap_total / '
+    'decode_with_bom_removal_cap_total (returns AND equals the streaming result), variantQuery_le (both UTF-8 queries and their intermediate results are <= 3n+13 '
+    'in every reachable state). Encoding::encode is modelled (encode / encodeV / encodeLoop: output_encoding, the three borrow shortcuts, '
+    'Vec::with_capacity(next_power_of_two(valid_up_to + max_buffer_length_from_utf8_if_no_unmappables(rest))), loop around encode_from_utf8_to_vec = '
+    'Model.encRepl with reserve_exact on OutputFull) and proved for every run that returns, whatever the stop policy of the inner calls, the slack and the number '
+    'of rounds: encodeV_eq_stream (bytes = erefHtml of the WHOLE text = by C03 encode_conforms the Standard\'s html-mode encode: encodeV_conforms; had_unmappables '
+    '= the reference run reports an unmappable character), encodeV_eq_any_history (= what ANY protocol-following streaming Encoder history yields, C04), '
+    'encodeV_borrow_iff (Borrowed iff output encoding UTF-8 / ISO-2022-JP and all bytes ASCII other than 0E/0F/1B / otherwise all bytes ASCII; borrowed = the '
+    'input, had_unmappables false), encode_used / encode_encoder / outputEncoding_utf8_iff (encoding used = output_encoding(), encoder = new_encoder() of it), via '
+    'encRepl_sound (new: the with-replacement wrapper against the reference for every stop policy, capacity and BOTH results) and encodeLoop_sound. '
+    'Non-vacuity: an admissible policy with an OutputFull round and a reserve (EUC-KR 41 FF*6, kernel-evaluated through the executable checker decodeAdmissibleB, '
+    'proved sound), the never-stop policy not admissible for the exact allocation. variant_identifies').replace(
+    'Kernel-checked, axioms propext/Classical.choice/Quot.sound only.',
+    'Kernel-checked; axioms propext/Classical.choice/Quot.sound, and for the second-round theorems the native_decide table evaluations of C07 (and of C03 for '
+    'encodeV_conforms) they rest on.').replace(
+    '~3.3*10^5 (quick) operation lines', '~3.7*10^5 (quick; 4.5*10^4 of them encode) operation lines')
+MANIFEST_TEXT_EXTRA['C11']['technique'] = (
+    'Lean 4 proof (refinement of the one-shot control flow to the chunk-free reference semantics, induction over loop rounds / the UTF-8 scan; capacity arithmetic '
+    'executed over the re-translated formulas and discharged by the C07 sufficiency theorems; termination by C08 progress) + differential correspondence '
+    'model/impl (decode and encode) + streaming-API oracles with aliasing check')
+
 # ---------------------------------------------------------------------------
 # C12 (sub-agent contribution).  The ENC_* strings are those of tools/props.py
 # (copied: `from props import ...` here would be circular).
